@@ -882,6 +882,18 @@ class Summariser:
             if isinstance(tree, Leaf) and tree.state.term in (None,):
                 return tree.state
             raise Unsupported("inlined helper with early exits")
+        if isinstance(st, ast.FunctionDef) and not st.decorator_list:
+            # a local function is a value bound to its name (its body is summarised on its own, see refmodels nested targets)
+            body = [x for x in st.body if not (isinstance(x, ast.Expr) and isinstance(x.value, ast.Constant) and isinstance(x.value.value, str))]
+            if len(body) == 1 and isinstance(body[0], ast.Return) and body[0].value is not None:
+                # `def f(): return E` is `f = lambda: E`
+                lam = ast.Lambda(args=st.args, body=body[0].value)
+                for a in lam.args.args + lam.args.kwonlyargs:
+                    a.annotation = None
+                env[st.name] = Term(self.canon(ast.fix_missing_locations(ast.copy_location(lam, st)), env))
+            else:
+                env[st.name] = Term(f"<def {st.name}>")
+            return state
         raise Unsupported(f"statement {type(st).__name__} at line {getattr(st, 'lineno', '?')}")
 
     def _drain(self, state):
@@ -1106,8 +1118,24 @@ class Summariser:
             if v not in env and v not in bind:
                 out[v] = Term(f"{v}@after{k}")
         effects = list(state.effects)
+        # inside the loop an accumulator is `what it held before the loop + what the iterations so far appended`
+        grammar = {}
+        for v in accs:
+            appended = m2.env[v].parts[1:]
+            parts = env[v].parts + ((("rep", "so far " + header, appended),) if appended else ())
+            grammar[f"<{v}>"] = ", ".join(show_part(x) for x in parts)
+
+        def spell(e):
+            if isinstance(e, tuple):
+                return tuple(spell(x) for x in e)
+            if isinstance(e, str):
+                for mark, full in grammar.items():
+                    if mark in e:
+                        e = e.replace(mark, full)
+            return e
+
         if m2.effects:
-            effects.append(("rep", header, tuple(m2.effects)))
+            effects.append(("rep", header, tuple(spell(x) for x in m2.effects) if grammar else tuple(m2.effects)))
         res = State(out, effects)
         res.env["__loops__"] = env.get("__loops__", ()) + ((k, header, text(count)),)
         res.env["__k__"] = max(k, m2.env.get("__k__", k))
